@@ -197,8 +197,10 @@ def scripted(name):
         'postponed_rekey_then_child': HANDSHAKE + [['rekey_ike', 'A'], ['rekey_ike', 'B'], D, D, D, D,
                                                    ['acquire', 'A', 81], D, D, D, D, ['expire', 'B', 0, 0], D, D, D, D, D, D],
         'crossing_children': HANDSHAKE + [['acquire', 'A', 81], ['acquire', 'B', 0], D, D, D, D],
-        'ike_spi_reuse': HANDSHAKE + [['force_ike_spi', 'B', 'A'], ['rekey_ike', 'A'], D, D, D, D,
-                                      ['acquire', 'A', 82], D, D, ['expire', 'B', 0, 1], D, D],
+        # the successor's peer SPI equals the local SPI of the IKE_SA being replaced; a request on the successor
+        # arrives while the old IKE_SA is still listed
+        'ike_spi_reuse': HANDSHAKE + [['force_ike_spi', 'B', 'A'], ['rekey_ike', 'A'], D, D, ['expire', 'B', 0, 1],
+                                      ['deliver', 1], D, D, D, ['acquire', 'A', 82], D, D, D, D],
         'replay_requests': HANDSHAKE + [['replay', 2], ['replay', 0], ['expire', 'A', 0, 0], D, ['replay', 4], D,
                                         ['replay', 4], ['replay', 5], D, D],
     }
